@@ -10,7 +10,7 @@ C11 — property theorems.
     negation witness, by `decide`; `eq_old_wrong_on_vectors` is the `return false` half.
 * `HashRespectsEq c`: values with equal unfoldings hash alike: `hash_respects_eq` (sound `c`),
   `not_hash_respects_eq_old_*` (the three legacy defects K11c, K11d, K11e).
-* `eq_refl`; `eq_symm`, `eq_trans` (values without hash maps / sets); `keys_interchangeable` (a key is found iff it equals the stored key's unfolding).
+* `eq_refl`; `eq_symm_partial`, `eq_trans_partial` (ONLY values without hash maps / sets); `keys_interchangeable` (a key is found iff it equals the stored key's unfolding).
 * collection laws for all inputs.
 Guards: `ListSigOK` (what is ASSUMED about list identities, see below), `WF` (acyclic: definitions mention earlier nodes only), `NoNaN` (a NaN is not `equal?` to
 itself — documented semantics, while an object holding one is identical to itself), `KeysDistinct`
@@ -119,28 +119,78 @@ def witnessMap : Graph :=
 example : WF witnessMap ∧ NoNaN witnessMap ∧ KeysDistinct witnessMap ∧
     eqSpec witnessMap 8 9 = true ∧ eqImpl Cfg.fixed witnessMap 8 9 = true := by decide
 
+/-- non-vacuity (theorem applied, every hypothesis instantiated): shared sub-lists used as keys of hash maps -/
+example : eqImpl Cfg.fixed witnessMap 8 9 = eqSpec witnessMap 8 9 :=
+  eq_structural _ rfl _ _ _ (by decide) (by decide) (by decide) (by decide) (by decide)
+example : eqImpl Cfg.fixed witnessD10 5 8 = eqSpec witnessD10 5 8 :=
+  eq_structural _ rfl _ _ _ (by decide) (by decide) (by decide) (by decide) (by decide)
+
 /-- equal? is reflexive (on NaN-free values) -/
 theorem eq_refl (c : Cfg) (hc : c.sound = true) (g : Graph) (a : Nat) (hwf : WF g) (hn : NoNaN g)
     (hkd : KeysDistinct g) (hsig : ListSigOK g) (ha : a < g.length) : eqImpl c g a a = true := by
   rw [eq_structural c hc g a a hwf hn hkd hsig ha]
   exact spec_refl hwf hn hkd a ha
 
-/-- equal? is symmetric on values without hash maps / hash sets (`NoHashed`: the part of "equivalence
-    relation" that is proved; symmetry through hash maps needs a counting argument that is not done). -/
-theorem eq_symm (c : Cfg) (hc : c.sound = true) (g : Graph) (a b : Nat) (hwf : WF g) (hn : NoNaN g)
+example : eqImpl Cfg.fixed witnessMap 9 9 = true :=
+  eq_refl _ rfl _ _ (by decide) (by decide) (by decide) (by decide) (by decide)
+/-- the guard `NoNaN` is needed: a NaN is not `equal?` to itself -/
+example : eqImpl Cfg.fixed [.leaf (.flt 0x7ff8000000000000)] 0 0 = false := by decide
+
+/-- PARTIAL: equal? is symmetric on values that contain NO hash map and NO hash set (guard `NoHashed`, on the
+    whole graph).  MISSING for the property's "equal? is an equivalence relation": symmetry when a hash map or a
+    hash set occurs anywhere inside either value.  There `eqSpec` on maps is "same size and every LEFT entry is
+    found on the right with an equal value" (what the code does); that this is symmetric follows from
+    `KeysDistinct` by a counting argument (an injection between two key lists of the same length is a bijection)
+    which is not formalised; for hash SETS it is even false under the present guards, which do not say that the
+    members of a set are pairwise different (`eq_symm_fails_without_distinct_members`).  Covered by test only
+    (both query orders in the correspondence). -/
+theorem eq_symm_partial (c : Cfg) (hc : c.sound = true) (g : Graph) (a b : Nat) (hwf : WF g) (hn : NoNaN g)
     (hkd : KeysDistinct g) (hsig : ListSigOK g) (hh : NoHashed g) (ha : a < g.length) (hb : b < g.length) :
     eqImpl c g a b = eqImpl c g b a := by
   rw [eq_structural c hc g a b hwf hn hkd hsig ha, eq_structural c hc g b a hwf hn hkd hsig hb]
   exact spec_symm hwf hh a b ha hb
 
-/-- equal? is transitive on values without hash maps / hash sets -/
-theorem eq_trans (c : Cfg) (hc : c.sound = true) (g : Graph) (a b d : Nat) (hwf : WF g) (hn : NoNaN g)
+/-- two separately built lists `(1)`, and two "hash sets" `{(1), (1)'}` and `{(1), 2}`: the first one has two
+    members that are `equal?` to each other — which no real hash set has, but which none of the guards
+    `WF`, `NoNaN`, `KeysDistinct` (about hash-MAP keys only), `ListSigOK` excludes -/
+def witnessDupSet : Graph :=
+  [.leaf (.int 1), .leaf (.int 2), .list [0] none, .list [0] none, .set [2, 3], .set [2, 1]]
+
+/-- **Why `eq_symm_partial` cannot simply drop `NoHashed`**: under the guards as they are, symmetry is FALSE
+    (for the specification and, by `eq_structural`, for the model of the code alike).  A symmetric statement
+    through hash sets needs a further guard "the members of a set are pairwise different" (the analogue of
+    `KeysDistinct`), which the model does not have; with it, the counting argument is still to be done. -/
+theorem eq_symm_fails_without_distinct_members :
+    WF witnessDupSet ∧ NoNaN witnessDupSet ∧ KeysDistinct witnessDupSet ∧ ListSigOK witnessDupSet ∧
+    eqSpec witnessDupSet 4 5 = true ∧ eqSpec witnessDupSet 5 4 = false ∧
+    eqImpl Cfg.fixed witnessDupSet 4 5 = true ∧ eqImpl Cfg.fixed witnessDupSet 5 4 = false := by decide
+
+/-- PARTIAL: equal? is transitive on values that contain NO hash map and NO hash set.  MISSING: transitivity
+    through hash maps / hash sets (same counting argument as for `eq_symm_partial`). -/
+theorem eq_trans_partial (c : Cfg) (hc : c.sound = true) (g : Graph) (a b d : Nat) (hwf : WF g) (hn : NoNaN g)
     (hkd : KeysDistinct g) (hsig : ListSigOK g) (hh : NoHashed g) (ha : a < g.length) (hb : b < g.length)
     (h1 : eqImpl c g a b = true) (h2 : eqImpl c g b d = true) : eqImpl c g a d = true := by
   rw [eq_structural c hc g a b hwf hn hkd hsig ha] at h1
   rw [eq_structural c hc g b d hwf hn hkd hsig hb] at h2
   rw [eq_structural c hc g a d hwf hn hkd hsig ha]
   exact spec_trans hwf hh a b d ha hb h1 h2
+
+/-- x = #(1 (2)), y, z: three separately built copies, each with an inner list; `y`'s inner list is shared with
+    a fourth value -/
+def witnessTrans : Graph :=
+  [.leaf (.int 1), .leaf (.int 2), .list [1] none, .list [1] none, .vec [0, 2], .mvec [0, 3], .vec [0, 3],
+   .list [3, 3] none]
+
+/-- non-vacuity (theorems applied; every hypothesis instantiated): symmetry on the D10 witness (the two values
+    differ) and on equal values; transitivity over three distinct nodes, one of them a mutable vector -/
+example : eqImpl Cfg.fixed witnessD10 5 8 = eqImpl Cfg.fixed witnessD10 8 5 :=
+  eq_symm_partial _ rfl _ _ _ (by decide) (by decide) (by decide) (by decide) (by decide) (by decide) (by decide)
+example : eqImpl Cfg.fixed witnessTrans 4 6 = true :=
+  eq_trans_partial _ rfl witnessTrans 4 5 6 (by decide) (by decide) (by decide) (by decide) (by decide) (by decide)
+    (by decide) (by decide) (by decide)
+example : eqImpl Cfg.fixed witnessTrans 4 5 = true ∧ eqImpl Cfg.fixed witnessTrans 5 6 = true := by decide
+/-- the guard `NoHashed` excludes e.g. `witnessMap`; what is true there is known by evaluation only (test) -/
+example : ¬ NoHashed witnessMap ∧ eqImpl Cfg.fixed witnessMap 8 9 = eqImpl Cfg.fixed witnessMap 9 8 := by decide
 
 example : NoHashed witnessD10 ∧ NoHashed witnessVec := by decide
 
@@ -154,6 +204,13 @@ theorem hash_respects_eq (c : Cfg) (hc : c.sound = true) : HashRespectsEq c := b
   intro g a b h
   rw [cfg_of_sound hc]
   exact relF_spec_hash g _ _ _ h
+
+/-- non-vacuity (theorem applied): two sets with different iteration orders inside lists; `0.0` and `-0.0` -/
+example : hashEq Cfg.fixed [.leaf (.int 1), .leaf (.int 2), .set [0, 1], .set [1, 0], .list [2] none, .list [3] none] 4 5
+    = true :=
+  hash_respects_eq _ rfl _ _ _ (by decide)
+example : hashEq Cfg.fixed [.leaf (.flt 0), .leaf (.flt (2 ^ 63))] 0 1 = true :=
+  hash_respects_eq _ rfl _ _ _ (by decide)
 
 /-- K11c: `0.0` and `-0.0` are equal but the legacy hash differs -/
 theorem not_hash_respects_eq_old_zero : ¬ HashRespectsEq Cfg.legacy := by
@@ -186,6 +243,15 @@ theorem keys_interchangeable (c : Cfg) (hc : c.sound = true) (g : Graph) (k k' :
   cases hs : eqSpec g k k'
   · simp
   · simp [hash_respects_eq c hc g k k' hs]
+
+/-- non-vacuity (theorem applied): in `witnessMap` the lists 2 and 3 are two objects with equal elements: either
+    finds the other as a stored key; the leaf 0 does not -/
+example : keyEqImpl Cfg.fixed witnessMap 2 3 = true :=
+  (keys_interchangeable _ rfl witnessMap 2 3 (by decide) (by decide) (by decide) (by decide) (by decide)).trans
+    (by decide)
+example : keyEqImpl Cfg.fixed witnessMap 2 0 = false :=
+  (keys_interchangeable _ rfl witnessMap 2 0 (by decide) (by decide) (by decide) (by decide) (by decide)).trans
+    (by decide)
 
 /-! ## collections behave as finite maps, finite sets and sequences -/
 
@@ -326,6 +392,76 @@ example : vSet [(1 : Int), 2] 2 0 = .err ∧ vSet [(1 : Int), 2] 1 9 = .ok [1, 9
     ∧ strSub ['a', 'b', 'c'] 1 3 = .ok ['b', 'c'] ∧ strSub ['a', 'b', 'c'] 0 4 = .err
     ∧ bSet [1, 2] 0 256 = .err ∧ bSet [1, 2] 2 1 = .err := by decide
 
+/-- non-vacuity of the laws with hypotheses (applied), and of the others on values with a key collision, a
+    removed key, a key that is absent, and boundary indices -/
+example : mLength (mInsert [((1 : Int), (2 : Int)), (3, 4)] 3 9) = 2 ∧ mLength (mInsert [((1 : Int), (2 : Int)), (3, 4)] 5 9) = 3 :=
+  ⟨(map_length_insert _ _ _ (by unfold mNodup; decide)).trans (by decide), (map_length_insert _ _ _ (by unfold mNodup; decide)).trans (by decide)⟩
+example : mLength (mRemove [((1 : Int), (2 : Int)), (3, 4)] 3) = 1 ∧ mLength (mRemove [((1 : Int), (2 : Int)), (3, 4)] 5) = 2 :=
+  ⟨(map_length_remove _ _ (by unfold mNodup; decide)).trans (by decide), (map_length_remove _ _ (by unfold mNodup; decide)).trans (by decide)⟩
+example : mNodup (mInsert [((1 : Int), (2 : Int)), (3, 4)] 3 9) ∧ mNodup (mRemove [((1 : Int), (2 : Int)), (3, 4)] 1) :=
+  ⟨map_nodup_insert _ _ _ (by unfold mNodup; decide), map_nodup_remove _ _ (by unfold mNodup; decide)⟩
+example : lRef [(10 : Int), 20, 30] ((2 : Nat) : Int) = .ok 30 := ref_ok _ 2 (by decide)
+example : vRef [(1 : Int), 9] 1 = .ok 9 ∧ vRef [(1 : Int), 9] 0 = .ok 1 :=
+  ⟨(ref_set [1, 2] [1, 9] 1 1 9 (by decide)).trans (by decide), (ref_set [1, 2] [1, 9] 1 0 9 (by decide)).trans (by decide)⟩
+example : ([(1 : Int), 9]).length = ([(1 : Int), 2]).length := set_length [1, 2] [1, 9] 1 9 (by decide)
+example : mTryGet (mInsert [((1 : Int), (2 : Int)), (3, 4)] 3 9) 3 = some 9 ∧ mTryGet (mInsert [((1 : Int), (2 : Int)), (3, 4)] 3 9) 1 = some 2
+    ∧ mTryGet (mRemove [((1 : Int), (2 : Int)), (3, 4)] 3) 3 = none ∧ mRef (mRemove [((1 : Int), (2 : Int)), (3, 4)] 3) 1 = .ok 2
+    ∧ mContains (mInsert [((1 : Int), (2 : Int))] 7 0) 7 = true ∧ mContains (mInsert [((1 : Int), (2 : Int))] 7 0) 8 = false
+    ∧ sContains (sInsert [(1 : Int), 2] 2) 2 = true ∧ sLength (sInsert [(1 : Int), 2] 2) = 2 ∧ sLength (sInsert [(1 : Int), 2] 3) = 3
+    ∧ sContains (sUnion [(1 : Int), 2] [2, 3]) 3 = true ∧ sContains (sInter [(1 : Int), 2] [2, 3]) 1 = false
+    ∧ sContains (sSymDiff [(1 : Int), 2] [2, 3]) 2 = false ∧ sContains (sSymDiff [(1 : Int), 2] [2, 3]) 3 = true
+    ∧ vRef (vPush [(1 : Int), 2] 7) 2 = .ok 7 ∧ lFirst ([] : List Int) = .err ∧ lRest [(1 : Int)] = .ok []
+    ∧ bMake [0, 255] = .ok [0, 255] ∧ bMake [0, 256] = .err := by decide
+
 end Collections
+
+/-! ## Clauses of the property not carried by a theorem -/
+
+/-
+What the theorems say, read together.  (1) On every ACYCLIC value graph over the modelled kinds (integers,
+floats by bit pattern, booleans, characters, strings, symbols, void, rationals, byte vectors; lists, pairs,
+immutable and mutable vectors, structs, boxes, hash maps, hash sets), with arbitrary nesting and arbitrary
+sharing, without NaN, with pairwise different map keys and under the assumption `ListSigOK` about list
+identities, the model of the worklist `equal?` of the fixed configuration equals equality of the unfoldings
+(`eq_structural`); it is reflexive (`eq_refl`); symmetric and transitive on values WITHOUT hash maps/sets
+(`eq_symm_partial`, `eq_trans_partial`); values with equal unfoldings hash alike (`hash_respects_eq`) and are
+found as each other's keys (`keys_interchangeable`).  That the current code HAS the fixed configuration is
+`GenSound.code_cfg_sound` (a `decide` on the regenerated `codeCfg`).  (2) The REFERENCE models of the
+collections (association lists, duplicate-free lists, lists with integer indices) satisfy the laws of finite
+maps, finite sets and sequences, including boundary indices and duplicate keys.
+
+NOT carried by any theorem (covered only by the differential correspondence of checks/c11.py):
+
+ * **"equal? is an equivalence relation" through hash maps and hash sets**: symmetry and transitivity are
+   proved only under `NoHashed` (see `eq_symm_partial`); the guards lack "set members are pairwise different",
+   without which symmetry is false in the model (`eq_symm_fails_without_distinct_members`).
+ * **NaN**: every theorem about `equal?` assumes `NoNaN` (a NaN is not `equal?` to itself — documented
+   semantics; but also a list CONTAINING a NaN is outside every theorem).
+ * **Cyclic values** (built by mutation of boxes / mutable vectors / mutable struct fields): `WF` demands an
+   acyclic graph; the cycle protection of the visited set, which is what the set exists for, is not verified
+   (C18 looks at termination only).
+ * **The other value kinds** ("all value kinds", 36 of them): closures, built-in and boxed functions, ports,
+   continuations, streams, futures, syntax objects, opaque/custom Rust values, complex numbers, mutable vs
+   immutable strings, … have no `Leaf`/`Node` constructor (`Cfg.armComplex`, `Cfg.armBoxedFunction` are fields
+   without a value kind to act on).
+ * **`eq?` and `eqv?`** and numeric `=`: no model, no theorem.
+ * **`ListSigOK`** (lists whose first nodes share storage, index and next pointer have the same elements) and
+   "one head cell, one node id" are ASSUMPTIONS about im-lists, checked on the graphs the harness builds.
+ * **The hash function itself**: `hashEq` is "feeds the hasher the same stream"; 64-bit collisions, the
+   `Hasher`, and the HAMT (`im`/`imbl`) lookup that `keys_interchangeable` abstracts as "same hash and `==`"
+   are not modelled.
+ * **Collections — there is no model M of the Rust primitives**: the theorems of the last section are laws of
+   the reference S (`Coll.*`); that `hash-insert`, `hash-ref`, `hashset-*`, `list-ref`, `vector-set!`,
+   `substring`, `bytes-set!`, … of the real engine behave as S on operation SEQUENCES is the correspondence only.
+   No law is stated for `append`, `reverse`, `range`, `last`, `hash-keys->list`, `hash-values->list`,
+   `hashset-subset?`, `hashset-remove`, `string-append`, `string->list`, `list->string`, `vector-append`,
+   `bytes-append`, `hash-clear`, `cons`/`car`/`cdr` on improper pairs (the definitions `lLast`, `mKeys`,
+   `mValues`, `sSubset`, `sRemove` are used by the driver only).  `first_rest` restates the definition.
+ * **Keys that are themselves collections** inside the collection laws: the laws are generic in a key type with
+   decidable equality; the link "Steel key equality = `eqSpec`" is `keys_interchangeable`, the composition of
+   the two (a finite map keyed by graphs modulo `eqSpec`) is not stated as a theorem.
+ * **Strings with arbitrary Unicode**: `strSub`/`strRef` index a `List Char`; byte offsets / UTF-8 boundaries of
+   the real `substring` are not modelled.
+-/
 
 end SteelVerif.C11
